@@ -126,9 +126,116 @@ def apply_history(history):
                 raise CaseInvalid("definition {} parsed to {}".format(ev, got))
 
 
-def number(n, d):
+# ---- operand styles: HOW the same tree is presented to the library (the unit model does not depend on it) -------------
+#  values : "same" (every leaf 4.0 +/- 0.5, equal central values in distinct objects) | "varied" | "special" (0, 1, -1, 2, 10,
+#           100) | "tiny" (x 1e-12) | "huge" (1e9 + 1)
+#  share  : leaves with the same written unit are ONE object (x*x, x+x, x/x on the same quantity)
+#  names  : None | "same" (every leaf is called "x") | "distinct"
+#  read   : every constructed quantity is read (.unit, str(), .value, .error) BEFORE it is used as an operand
+#  entry  : "scalar" (q.Measurement) | "element" (leaf = element [0] of a q.MeasurementArray)
+#  cst    : "plain" | "bool" | "numpy" | "fraction"  -- number type of constant operands and constant powers
+_STYLE = {}
+_SHARED = {}
+_COUNTER = [0]
+_LEAVES = []
+VALUE_SETS = {"varied": [4.0, 2.5, 9.0, 0.75, 16.0, 1.25], "special": [0.0, 1.0, -1.0, 2.0, 10.0, 100.0],
+              "tiny": [4e-12, 2.5e-12, 9e-12], "huge": [1e9 + 1, 1e9 + 2, 3e9]}
+
+
+class styled:
+    def __init__(self, style):
+        self.style = style or {}
+
+    def __enter__(self):
+        global _STYLE
+        self.old = _STYLE
+        _STYLE = self.style
+        begin_build()
+
+    def __exit__(self, *a):
+        global _STYLE
+        _STYLE = self.old
+
+
+def begin_build():
+    _SHARED.clear()
+    del _LEAVES[:]
+    _COUNTER[0] = 0
+
+
+def rand_style(rng, p_plain=0.5):
+    if rng.random() < p_plain:
+        return None
+    st = {}
+    if rng.random() < 0.5:
+        st["values"] = rng.choice(["varied", "special", "tiny", "huge", "same"])
+    if rng.random() < 0.4:
+        st["share"] = True
+    if rng.random() < 0.3:
+        st["names"] = rng.choice(["same", "distinct"])
+    if rng.random() < 0.4:
+        st["read"] = True
+    if rng.random() < 0.25:
+        st["entry"] = "element"
+    if rng.random() < 0.35:
+        st["cst"] = rng.choice(["bool", "numpy", "fraction"])
+    return st or None
+
+
+def number(n, d, power=False):
     f = Fraction(n, d)
+    kind = _STYLE.get("cst", "plain")
+    i = _COUNTER[0]
+    _COUNTER[0] += 1
+    if kind == "bool" and f in (0, 1):
+        return bool(f)
+    if kind == "fraction":
+        return f
+    if kind == "numpy":
+        import numpy as np
+        if f.denominator == 1:
+            return [np.int64, np.int32, np.float64, np.int16][i % 4](int(f))
+        # a power is printed through Fraction(power): only float64 is a Python float (see the note on float32 powers)
+        return np.float64(float(f)) if power else [np.float64, np.float32][i % 2](float(f))
     return int(f) if f.denominator == 1 else float(f)
+
+
+def read_before_use(x):
+    """what a user may do with an intermediate result before computing on with it"""
+    if not _STYLE.get("read") or not hasattr(x, "_unit"):
+        return
+    _ = x.unit
+    try:
+        _ = str(x), x.value, x.error
+    except Exception:  # noqa -- values may be outside an operator's domain (sqrt of a negative number ...): not our concern
+        pass
+
+
+def make_leaf(items):
+    q = _q()
+    key = json.dumps(items)
+    if _STYLE.get("share") and key in _SHARED:
+        return _SHARED[key]
+    i = _COUNTER[0]
+    _COUNTER[0] += 1
+    vals = VALUE_SETS.get(_STYLE.get("values"), [4.0])
+    v = vals[i % len(vals)]
+    err = abs(v) / 8 if v else 0.5
+    kw = {}
+    if _STYLE.get("names") == "same":
+        kw["name"] = "x"
+    elif _STYLE.get("names") == "distinct":
+        kw["name"] = "x{}".format(i)
+    if _STYLE.get("entry") == "element":
+        arr = q.MeasurementArray([v, v + 1.0], err, unit=ustr(items), **kw)
+        m = arr[0]
+    else:
+        m = q.Measurement(v, err, unit=ustr(items), **kw)
+    if to_items(m._unit) != [list(x) for x in items]:
+        raise CaseInvalid("leaf {} parsed to {}".format(items, to_items(m._unit)))
+    _SHARED[key] = m
+    _LEAVES.append(m)
+    return m
 
 
 def build(t, nodes):
@@ -136,10 +243,9 @@ def build(t, nodes):
     q = _q()
     k = t[0]
     if k == "leaf":
-        m = q.Measurement(4.0, 0.5, unit=ustr(t[1]))
-        if to_items(m._unit) != [list(x) for x in t[1]]:
-            raise CaseInvalid("leaf {} parsed to {}".format(t[1], to_items(m._unit)))
+        m = make_leaf(t[1])
         nodes.append(m)
+        read_before_use(m)
         return m
     if k == "cst":
         return number(t[1], t[2])
@@ -150,8 +256,10 @@ def build(t, nodes):
         op = t[1]
         r = -a if op == "neg" else getattr(q, {"ln": "log"}.get(op, op))(a)
         nodes.append(r)
+        read_before_use(r)
         return r
-    a, b = build(t[2], nodes), build(t[3], nodes)
+    a = build(t[2], nodes)
+    b = number(t[3][1], t[3][2], power=True) if (t[1] == "pow" and t[3][0] == "cst") else build(t[3], nodes)
     if not hasattr(a, "_unit") and not hasattr(b, "_unit"):
         raise CaseInvalid("operator on two plain numbers")
     op = t[1]
@@ -170,13 +278,14 @@ def build(t, nodes):
     else:
         raise CaseInvalid("operator " + op)
     nodes.append(r)
+    read_before_use(r)
     return r
 
 
 MISMATCH_TEXT = "mismatching units"
 
 
-def run_tree(history, tree, frac=False, recalc_history=None):
+def run_tree(history, tree, frac=False, recalc_history=None, style=None):
     """returns dict(unit=items, warned=bool, text=str, exc=None|'rec', exact=bool, nodes=[items...])"""
     q = _q()
     reset_state()
@@ -188,7 +297,8 @@ def run_tree(history, tree, frac=False, recalc_history=None):
         with warnings.catch_warnings(record=True) as w:
             warnings.simplefilter("always")
             try:
-                r = build(tree, nodes)
+                with styled(style):
+                    r = build(tree, nodes)
                 if recalc_history is not None:
                     if not hasattr(r, "recalculate"):
                         raise CaseInvalid("recalculate on a measurement")
@@ -198,6 +308,10 @@ def run_tree(history, tree, frac=False, recalc_history=None):
                 text = r.unit if hasattr(r, "_unit") else ""
             except RecursionError:
                 return {"exc": "rec", "exact": True}
+            except CaseInvalid:
+                raise
+            except Exception as e:  # noqa  -- the library itself failed on this input
+                return {"exc": "crash", "what": "{}: {}".format(type(e).__name__, str(e)[:120]), "exact": True}
         if not hasattr(r, "_unit"):
             raise CaseInvalid("the tree is a plain number")
         warned = any(MISMATCH_TEXT in str(x.message) for x in w)
@@ -210,16 +324,21 @@ def run_tree(history, tree, frac=False, recalc_history=None):
         reset_state()
 
 
-def observe_use(tree, events_so_far, frac=False):
+def observe_use(tree, events_so_far, frac=False, style=None):
     """build one tree under whatever definitions are in force NOW (no reset) and observe it"""
     nodes = []
     with warnings.catch_warnings(record=True) as w:
         warnings.simplefilter("always")
         try:
-            r = build(tree, nodes)
+            with styled(style):
+                r = build(tree, nodes)
             text = r.unit if hasattr(r, "_unit") else ""
         except RecursionError:
             return {"exc": "rec", "exact": True}
+        except CaseInvalid:
+            raise
+        except Exception as e:  # noqa  -- the library itself failed on this input
+            return {"exc": "crash", "what": "{}: {}".format(type(e).__name__, str(e)[:120]), "exact": True}
     if not hasattr(r, "_unit"):
         raise CaseInvalid("the tree is a plain number")
     warned = any(MISMATCH_TEXT in str(x.message) for x in w)
@@ -229,16 +348,22 @@ def observe_use(tree, events_so_far, frac=False):
             "exact": all(small_dyadic(it) for it in node_items), "nodes": node_items, "defs_items": defs_items}
 
 
-def run_session(steps):
+def run_session(steps, style=None):
     """steps: ["define", name, items] | ["clear"] | ["use", tree], executed in order in ONE interpreter state (no reset
     in between: what an earlier use left behind in the library is still there at a later one).
+    The session starts from a FRESH LIBRARY STATE (core.fresh_impl(): the modules are imported again), without any
+    clear_unit_definitions() call and without touching UNIT_DEFINITIONS from outside: the first define of the session is
+    the first define of the process, the first clear its first clear.
     Returns the list of observations of the use steps, in order."""
-    reset_state()
+    core.fresh_impl()
     out, events = [], []
+    run_session.state_changes = []
     try:
         for st in steps:
             if st[0] == "use":
-                out.append(observe_use(st[1], events))
+                out.append(observe_use(st[1], events, style=style))
+            elif st[0] == "bad_define":
+                rejected_define(st[1], st[2], run_session.state_changes)
             else:
                 apply_history([st])
                 events.append(st)
@@ -247,24 +372,124 @@ def run_session(steps):
         reset_state()
 
 
+run_session.state_changes = []
+BAD_UNIT_TEXTS = ["kg*/m", "(kg", "m^", "2m", "kg**m", "m/", "", "m^x", "kg m", "m)"]
+BAD_NAMES = ["k g", "N-1", ""]
+
+
+def rejected_define(name, text, changes):
+    """a define_unit call that the library rejects must leave the definitions exactly as they were"""
+    q, U = _q(), _U()
+    before = [[n, to_items(d)] for n, d in U.UNIT_DEFINITIONS.items()]
+    try:
+        q.define_unit(name, text)
+    except Exception:  # noqa
+        after = [[n, to_items(d)] for n, d in U.UNIT_DEFINITIONS.items()]
+        if after != before:
+            changes.append("define_unit({!r}, {!r}) was rejected but changed the definitions from {} to {}".format(
+                name, text, before, after))
+        return
+    raise CaseInvalid("define_unit({!r}, {!r}) was accepted".format(name, text))
+
+
+def run_setunit(history, tree, idx, new_items, frac=False, style=None):
+    """build a tree whose operands are leaves, READ its unit, change the unit of leaf [idx] through the public setter
+    (on the same object), recalculate() the result and observe it again"""
+    q = _q()
+    reset_state()
+    try:
+        apply_history(history)
+        nodes = []
+        with warnings.catch_warnings(record=True) as w:
+            warnings.simplefilter("always")
+            try:
+                with styled(dict(style or {}, share=False)):
+                    r = build(tree, nodes)
+                    leaves = list(_LEAVES)
+                if not hasattr(r, "recalculate") or idx >= len(leaves):
+                    raise CaseInvalid("nothing to recalculate")
+                _ = r.unit
+                try:
+                    _ = str(r)
+                except Exception:  # noqa -- the VALUE may be outside an operator's domain (0 ** -1 ...): not our concern
+                    pass
+                if to_items(_U().parse_unit_string(ustr(new_items)) if new_items else {}) != [list(x) for x in new_items]:
+                    raise CaseInvalid("the unit text does not parse to the intended map")     # the parser is C12
+                leaves[idx].unit = ustr(new_items)       # what the setter does with it is under test
+                del w[:]
+                r.recalculate()
+                text = r.unit
+            except RecursionError:
+                return {"exc": "rec", "exact": True}
+            except CaseInvalid:
+                raise
+            except Exception as e:  # noqa
+                return {"exc": "crash", "what": "{}: {}".format(type(e).__name__, str(e)[:120]), "exact": True}
+        warned = any(MISMATCH_TEXT in str(x.message) for x in w)
+        node_items = [to_items(n._unit) for n in nodes]
+        defs_items = [x for ev in history if ev[0] == "define" for x in ev[2]]
+        return {"exc": None, "unit": to_items(r._unit), "warned": warned, "text": text,
+                "exact": all(small_dyadic(it) for it in node_items), "nodes": node_items, "defs_items": defs_items}
+    finally:
+        reset_state()
+
+
+def replace_leaf(tree, idx, new_items):
+    """the tree with its idx-th leaf (in construction order) replaced"""
+    count = [0]
+
+    def go(t):
+        if t[0] == "leaf":
+            i = count[0]
+            count[0] += 1
+            return leaf(new_items) if i == idx else t
+        if t[0] == "cst":
+            return t
+        return t[:2] + [go(x) for x in t[2:]]
+    return go(tree)
+
+
+def count_leaves(t):
+    if t[0] == "leaf":
+        return 1
+    if t[0] == "cst":
+        return 0
+    return sum(count_leaves(x) for x in t[2:])
+
+
+def oracle_setunit(history, tree, idx, new_items, style=None):
+    defs = defs_of(history)
+    newtree = replace_leaf(tree, idx, new_items)
+    try:
+        exp = o_dim(newtree, defs)
+        obs = run_setunit(history, tree, idx, new_items, style=style)
+    except (OutOfDomain, Cyclic, CaseInvalid):
+        return None
+    why = judge(obs, exp, defs, newtree)
+    return "after the unit of operand #{} was set to {!r} and the result recalculated: {}".format(
+        idx + 1, ustr(new_items), why) if why else None
+
+
 def session_events_before(steps):
     """for every use step: the define/clear events that precede it"""
     events, out = [], []
     for st in steps:
         if st[0] == "use":
             out.append(list(events))
-        else:
+        elif st[0] in ("define", "clear"):
             events.append(st)
     return out
 
 
-def oracle_session(steps):
+def oracle_session(steps, style=None):
     """every use of a session must agree with dimensional analysis under the definitions in force at that moment
     (latest definition of each name since the latest clear), whatever was defined, used or redefined before"""
     try:
-        obs = run_session(steps)
+        obs = run_session(steps, style)
     except CaseInvalid:
         return None
+    if run_session.state_changes:
+        return run_session.state_changes[0]
     uses = [st for st in steps if st[0] == "use"]
     for i, (st, ob, evs) in enumerate(zip(uses, obs, session_events_before(steps))):
         defs = defs_of(evs)
@@ -278,10 +503,10 @@ def oracle_session(steps):
     return None
 
 
-def shrink_session(steps):
+def shrink_session(steps, style=None):
     """delta-debug the steps, then shrink the trees of the remaining uses"""
     def fails(s):
-        return oracle_session(s) is not None
+        return oracle_session(s, style) is not None
     steps = core.shrink_list(steps, fails)
     for i, st in enumerate(steps):
         if st[0] == "use":
@@ -405,7 +630,7 @@ class Enc:
             if st[0] == "use":
                 terms.append(self.I("(SUse {} {} {})".format(self.tree(st[1]), self.obs(obs[i]), self.opt_umap(showns[i]))))
                 i += 1
-            else:
+            elif st[0] in ("define", "clear"):
                 terms.append("(SEv {})".format(self.event(st)))
         return "[" + "; ".join(terms) + "]"
 
@@ -741,9 +966,61 @@ def use_trees(rng, events, focus=None, n=None):
     return out
 
 
+def stale_probes(rng, events, n=None):
+    """uses whose unit is GIVEN (or computed) in the expanded form of a definition made at any earlier point of the
+    session, also one that has since been cleared or replaced: printing, powers and products of such units must follow
+    the definitions in force now, not the ones that used to be"""
+    bodies = [(ev[1], ev[2]) for ev in events if ev[0] == "define"]
+    out = []
+    if not bodies:
+        return out
+    for _ in range(n or rng.randrange(1, 4)):
+        name, body = rng.choice(bodies)
+        body = [list(x) for x in body]
+        p = Fraction(rng.choice([1, 1, 1, 2, -1, 3]))
+        scaled = [item(n_, Fraction(a, b) * p) for n_, a, b in body]
+        k = rng.random()
+        if k < 0.4:
+            t = leaf(permuted(rng, scaled) if rng.random() < 0.4 else scaled)            # printed as given
+        elif k < 0.6:
+            t = ["bin", "pow", leaf(body), cst(rng.choice([2, -1, 3, Fraction(1, 2)]))]    # constant power: not packed in the dict
+        elif k < 0.8 and len(body) > 1:
+            i = rng.randrange(1, len(body))
+            t = ["bin", "mul", leaf(body[:i]), leaf(body[i:])]                          # computed after the change
+        elif k < 0.9:
+            t = ["un", rng.choice(["neg", "sqrt"]), leaf(scaled)]
+        else:
+            t = ["bin", "add", leaf(scaled), leaf(permuted(rng, scaled))]
+        out.append(["use", t])
+    return out
+
+
+def with_rejected_defines(rng, steps):
+    """the same session with define_unit calls that the library rejects (malformed unit text for a name that is or is
+    not defined, malformed name), some offered twice in a row: they must change nothing"""
+    out = []
+    for st in steps:
+        out.append(st)
+        if rng.random() < 0.25:
+            names = [x[1] for x in out if x[0] == "define"] or ["N"]
+            bad = ["bad_define", rng.choice(names), rng.choice(BAD_UNIT_TEXTS)] if rng.random() < 0.75 else \
+                ["bad_define", rng.choice(BAD_NAMES), "kg*m"]
+            out.append(bad)
+            if rng.random() < 0.4:
+                out.append(list(bad))
+    return out
+
+
 def gen_session(rng):
+    steps = gen_session_plain(rng)
+    return with_rejected_defines(rng, steps) if rng.random() < 0.3 else steps
+
+
+def gen_session_plain(rng):
     """define / clear / use steps; a good share redefines (or defines for the first time) a name on which an already
-    USED name is built, without a clear in between"""
+    USED name is built, without a clear in between; another share clears (the FIRST clear of the process) after
+    definitions were made, optionally defines the names differently, and then prints / computes units in the expanded
+    form of the earlier definitions"""
     steps, events = [], []
 
     def ev(e):
@@ -753,8 +1030,34 @@ def gen_session(rng):
     def uses(focus=None, n=None):
         steps.extend(use_trees(rng, events, focus, n))
 
+    def stale(n=None):
+        steps.extend(stale_probes(rng, events, n))
+
     r = rng.random()
     chain = rng.choice(CHAINS)
+    if r < 0.22:
+        # definitions made before the first clear of the process, clear, (other bodies), units in the old expanded forms
+        for n in chain:
+            ev(["define", n, [list(x) for x in rng.choice(VARIANTS[n])]])
+        if rng.random() < 0.5:
+            uses(chain, 1)
+        if rng.random() < 0.3:
+            stale(1)
+        ev(["clear"])
+        if rng.random() < 0.6:
+            stale()
+        k = rng.random()
+        if k < 0.7:
+            for n in (chain if rng.random() < 0.5 else chain[:1]):
+                ev(["define", n, [list(x) for x in rng.choice(VARIANTS[n])]])
+            stale()
+            if rng.random() < 0.5:
+                uses(chain, 1)
+        if rng.random() < 0.3:
+            ev(["clear"])
+            stale(1)
+        return steps
+    r = (r - 0.22) / 0.78
     if r < 0.45:
         # chain defined bottom-up, dependents used, then a lower name redefined, dependents used again
         for n in chain:
@@ -780,9 +1083,11 @@ def gen_session(rng):
         uses(chain)
         ev(["clear"])
         uses(chain, 1)
+        stale(1)
         for n in chain:
             ev(["define", n, [list(x) for x in rng.choice(VARIANTS[n])]])
             uses([n], 1)
+        stale(1)
     else:
         # random interleaving over an acyclic vocabulary (a name only mentions names earlier in ORDER)
         order = ["X", "Y", "Z", "L"]
@@ -798,14 +1103,27 @@ def gen_session(rng):
                 ev(["define", order[i], body])
             elif k < 0.52:
                 ev(["clear"])
+            elif k < 0.65:
+                stale(1)
             else:
                 uses(defined)
     return steps
 
 
 def session_templates():
-    """deterministic small scope: every chain x every (lower name, other body) redefinition after the dependents were used"""
+    """deterministic small scope: every chain x every (lower name, other body) redefinition after the dependents were used;
+    every name x (define, clear, [define with another body]) followed by units in the expanded form of the first body"""
     out = []
+    for name, variants in sorted(VARIANTS.items()):
+        first = [list(x) for x in variants[0]]
+        probes = [["use", leaf(first)], ["use", ["bin", "pow", leaf(first), cst(2)]],
+                  ["use", ["bin", "mul", leaf(first), leaf([item("kg", 1)])]]]
+        if len(first) > 1:
+            probes.append(["use", ["bin", "mul", leaf(first[:1]), leaf(first[1:])]])
+        out.append([["define", name, first]] + probes + [["clear"]] + probes)
+        for other in variants[1:]:
+            out.append([["define", name, first], ["clear"], ["define", name, [list(x) for x in other]]] + probes)
+            out.append([["define", name, first], ["define", name, [list(x) for x in other]]] + probes)
     for chain in CHAINS:
         if len(chain) < 2:
             continue
@@ -916,7 +1234,7 @@ def o_dim(t, defs, root=True):
     raise OutOfDomain("operator outside the grammar")
 
 
-def oracle_check(history, tree, frac=False):
+def oracle_check(history, tree, frac=False, style=None):
     """None when the implementation agrees with dimensional analysis on this case (or the case is outside the
     property's domain); otherwise a description of the contradiction"""
     defs = defs_of(history)
@@ -925,7 +1243,7 @@ def oracle_check(history, tree, frac=False):
     except (OutOfDomain, Cyclic):
         return None
     try:
-        obs = run_tree(history, tree, frac)
+        obs = run_tree(history, tree, frac, style=style)
     except CaseInvalid:
         return None
     return judge(obs, exp, defs, tree, frac)
@@ -933,6 +1251,8 @@ def oracle_check(history, tree, frac=False):
 
 def judge(obs, exp, defs, tree, frac=False):
     """compare one observation of a tree with the expected outcome exp = o_dim(tree, defs)"""
+    if obs.get("exc") == "crash":
+        return "building the tree raised {}".format(obs["what"])
     if obs.get("exc"):
         return "building the tree raised RecursionError although the definitions are acyclic"
     if not obs["exact"]:
@@ -968,6 +1288,38 @@ def judge(obs, exp, defs, tree, frac=False):
         if any(n == 0 for _, n, _ in obs["unit"]):
             return "a cancelled unit stays in the result of * or /: {}".format(obs["unit"])
     return None
+
+
+def check_one(c):
+    """one self-standing case of the tree kinds: a tree, or a tree whose operand unit is changed through the setter"""
+    if "idx" in c:
+        return oracle_setunit(c.get("history", []), c["tree"], c["idx"], c["new"], c.get("style"))
+    return oracle_check(c.get("history", []), c["tree"], c.get("frac", False), c.get("style"))
+
+
+def gen_setunit(rng, history, leafgen):
+    """a depth-1 tree, an operand index and the unit it is given afterwards (often the unit of the other operand, so that a
+    sum that mismatched now matches, or the reverse)"""
+    a, b = leaf(leafgen(rng)), leaf(leafgen(rng))
+    k = rng.random()
+    if k < 0.2:
+        tree = ["un", rng.choice(UN_OPS), a]
+    elif k < 0.3:
+        tree = ["bin", "pow", a, cst(rng.choice([2, -1, Fraction(1, 2)]))]
+    else:
+        op = rng.choice(BIN_OPS)
+        if op in ("add", "sub") and rng.random() < 0.5:
+            b = leaf(permuted(rng, a[1]))
+        tree = ["bin", op, a, b] if rng.random() < 0.85 else ["bin", op, cst(2), b]
+    n = count_leaves(tree)
+    idx = rng.randrange(n)
+    r = rng.random()
+    if r < 0.4 and n == 2:
+        other = tree[2 + (1 - idx)][1]
+        new = permuted(rng, other)
+    else:
+        new = leafgen(rng)
+    return tree, idx, [list(x) for x in new]
 
 
 def fmt_dim(d):
